@@ -99,3 +99,12 @@ CLAIMS["C13"] = (
     "One problem per data kind (6x3). 'Explained' is decided by message patterns listed in the driver plus hasattr "
     "confirmation of the named attribute.",
     "DESIGN.md §4 C13")
+CLAIMS["C20"] = (
+    "exploration",
+    "exhaustive enumeration of accepted compositions x shapes x layouts, each executed differentially in workers with and without numba bounds checking",
+    "Every cell of the C13 covering set (every accepted cell in thorough) x data shapes x contiguous / reversed / interleaved group "
+    "layouts x intercept is executed twice, in a worker started with NUMBA_BOUNDSCHECK=1 and in an unchecked one: the checked "
+    "run must not raise IndexError or a broadcasting error and both runs must return the same outcome and the same result to "
+    "1e-10, i.e. no result depends on memory outside the arrays passed in.",
+    "NUMBA_BOUNDSCHECK is numba's switch, not a hook. One problem per data kind and shape.",
+    "DESIGN.md §4 C20")
